@@ -133,6 +133,7 @@ def run(ctx):
     if ctx.counts.get("no_behavioural_verdict", 0) > 0.15 * ctx.counts["pairs"]:
         raise HarnessFault("too many wrapper/decorator pairs without a behavioural verdict (templates out of date)")
     tracer_guard(ctx)
+    fold_guard(ctx)
 
 
 CUSTOM_GROUP_SRC = '''from typing import Any
@@ -188,6 +189,72 @@ def outer_free_nofold():
         action.set_loc(h)
     return inner
 '''
+
+
+FOLD_GUARD_SRC = '''from typing import Any
+from bloqade.geometry.dialects import grid
+from kirin.dialects import ilist
+from bloqade.shuttle import action, gate, schedule, spec
+from bloqade.shuttle.prelude import tweezer, move
+from harness.props import c17 as _C17
+
+@tweezer
+def tkf(g: grid.Grid[Any, Any]):
+    action.set_loc(g)
+
+@move
+def not_a_tweezer_kernel(g: grid.Grid[Any, Any]):
+    return g
+
+@move
+def forwarding_move_kernel(g: grid.Grid[Any, Any]):
+    tkf(g)
+
+@move(arch_spec=_C17.SPEC_SLOT)
+def okk():
+    d = schedule.device_fn(tkf, ilist.IList([0]), ilist.IList([0]))
+    d(grid.from_positions([0.0], [0.0]))
+
+{bad}
+'''
+
+BAD_KERNELS = ['''@move(arch_spec=_C17.SPEC_SLOT)
+def badk():
+    d = schedule.device_fn(forwarding_move_kernel, ilist.IList([0]), ilist.IList([0]))
+    d(grid.from_positions([0.0], [0.0]))
+''', '''@move(arch_spec=_C17.SPEC_SLOT)
+def badk():
+    d = schedule.device_fn(not_a_tweezer_kernel, ilist.IList([0]), ilist.IList([0]))
+    d(grid.from_positions([0.0], [0.0]))
+''', '''@move(arch_spec=_C17.SPEC_SLOT)
+def badk():
+    d = schedule.reverse(schedule.device_fn(not_a_tweezer_kernel, ilist.IList([0]), ilist.IList([0])))
+    d(grid.from_positions([0.0], [0.0]))
+''']
+SPEC_SLOT = None
+
+
+def fold_guard(ctx):
+    """the tracer's kind guard on the compile-time route: a device call of something that is no tweezer kernel, with constant
+    operands and the spec given at compile time, must not be traced into a path"""
+    global SPEC_SLOT
+    from bloqade.geometry.dialects.grid import Grid
+    from bloqade.shuttle.arch import ArchSpec, Layout
+    from bloqade.shuttle.dialects import path
+    from kirin.dialects import py
+    SPEC_SLOT = ArchSpec(layout=Layout({"traps": Grid.from_positions([0.0, 1.0], [0.0])}, {"traps"}, {"traps"}, {"traps"}))
+    for bad in BAD_KERNELS:
+        case = {"fold_guard": bad}
+        ctx.seen(("fold_guard", bad), True)
+        try:
+            mod = T.load_source(FOLD_GUARD_SRC.replace("{bad}", bad), "foldguard")
+        except Exception:  # noqa: BLE001
+            continue            # refused at definition
+        traced = [st for st in mod.badk.callable_region.walk()
+                  if isinstance(st, py.Constant) and isinstance(st.value.unwrap() if hasattr(st.value, "unwrap") else None, path.Path)]
+        if traced:
+            ctx.fail(case, "a device call of a move kernel was traced into a path at compile time (the tracer must refuse "
+                           "anything that is not a tweezer kernel or closure)")
 
 
 def tracer_guard(ctx):
